@@ -442,7 +442,8 @@ def check_deep(case):
 
 # ---------------------------------------------------------------- the first evaluations of a process, made by several threads at once
 
-COLD_FORMULAS = ['SUM(1,2)+LEN("ab")', 'IF(1<2,"x","y")&UPPER("q")', 'MAX({1,5,3})*ABS(-2)', 'ROUND(2.567,1)+DATE(2020,1,1)-DATE(2019,12,31)', 'CONCATENATE("a",1)&TEXTJOIN("-",TRUE,1,2)', 'ISNUMBER(1)', '1+', 'nosuch+1']
+COLD_FORMULAS = ['SUM(1,2)+LEN("ab")', 'IF(1<2,"x","y")&UPPER("q")', 'MAX({1,5,3})*ABS(-2)', 'ROUND(2.567,1)+DATE(2020,1,1)-DATE(2019,12,31)', 'CONCATENATE("a",1)&TEXTJOIN("-",TRUE,1,2)', 'ISNUMBER(1)', '1+', 'nosuch+1',
+                 'ZZZ3+XFD2*2+AAA1', 'SUM(XFD1:ZZZ2)&"/"&zz9', 'AB12&MAX(B2:C3)']      # cells and ranges answered from the coordinates handed to the listener
 
 
 def enum_cold(tier, shard, nshards):
@@ -721,7 +722,7 @@ LAWS = [
              'the baton suspends thread 0 inside its first evaluation, lets thread 1 get 200-9200 lines into the long one, then lets thread 0 finish: every formula must give the outcome (error code / kind and length of the result) it gives alone; 48 schedules in quick, 640 in thorough'),
     Law('cold_start_threads', check_cold, enumerate=enum_cold, shards=(16, 16), key=lambda c: 'thread-interleaving', guard=400,
         rule='a brand-new interpreter process in which 2-4 threads, each with its own parser, make the very first evaluations of the process at the same moment (the library imported beforehand or by the threads themselves): '
-             'each of 8 formulas must give every thread the outcome it gives afterwards, alone; 32 processes in quick, 192 in thorough (whatever is initialised lazily, once per process, is initialised here under contention)'),
+             'each of 11 formulas (three of them over listener-served cells and ranges) must give every thread the outcome it gives afterwards, alone; 32 processes in quick, 192 in thorough (whatever is initialised lazily, once per process, is initialised here under contention)'),
     Law('threads_free', check_free, enumerate=enum_free, shards=(1, 4), key=lambda c: 'thread-interleaving',
         rule='thorough only: 8 free-running threads x distinct parsers x 200 formulas with a 1 microsecond switch interval; every outcome equals the solo outcome'),
     Law('cross_parser_state', check_cross_state, strategy=cross_case, classes=cross_classes, required=('reversed-range', 'absolute-cell', 'both-parsers'), quick=1500, thorough=60000, shards=(8, 16),
